@@ -164,6 +164,14 @@ func (c *clientFile) xattrWalkRead(attr string) ([]byte, error) {
 	return buf[:n], nil
 }
 
+// usableBy reports whether f can be named as an argument in a request made
+// through c: a File argument travels as a fid number, which means something
+// only on the connection it was bound on, and only until the File is closed
+// (the number is then free and goes to the next File).
+func (f *clientFile) usableBy(c *clientFile) bool {
+	return f.client == c.client && atomic.LoadUint32(&f.closed) == 0
+}
+
 // Walk implements File.Walk.
 func (c *clientFile) Walk(names []string) ([]QID, File, error) {
 	if atomic.LoadUint32(&c.closed) != 0 {
@@ -461,7 +469,7 @@ func (c *clientFile) Rename(dir File, name string) error {
 	}
 
 	clientDir, ok := dir.(*clientFile)
-	if !ok {
+	if !ok || !clientDir.usableBy(c) {
 		return linux.EBADF
 	}
 
@@ -566,7 +574,7 @@ func (c *clientFile) Link(target File, newname string) error {
 	}
 
 	targetFile, ok := target.(*clientFile)
-	if !ok {
+	if !ok || !targetFile.usableBy(c) {
 		return linux.EBADF
 	}
 
@@ -612,7 +620,7 @@ func (c *clientFile) RenameAt(oldname string, newdir File, newname string) error
 	}
 
 	clientNewDir, ok := newdir.(*clientFile)
-	if !ok {
+	if !ok || !clientNewDir.usableBy(c) {
 		return linux.EBADF
 	}
 
